@@ -607,7 +607,7 @@ func enumPaths(alphabet []Op, depth int) [][]Op {
 
 func runC05(c *Ctx) {
 	depth := 3
-	cfgs := []Cfg{{}, {Cache: true}, {Compress: true, Ext: ".obj"}, {Async: 1}}
+	cfgs := []Cfg{{}, {Cache: true}, {Compress: true, Ext: ".v1.obj"}, {Async: 1}}
 	if c.Tier == "thorough" {
 		depth = 5
 		cfgs = append(cfgs, Cfg{Async: 2, Compress: true}, Cfg{Index: 2, Lower: true})
@@ -716,7 +716,7 @@ func runC06Faults(c *Ctx) {
 	kinds := []string{"eio", "partial"}
 	if c.Tier == "thorough" {
 		depth = 3
-		cfgs = append(cfgs, Cfg{Index: 2, Ext: ".obj"}, Cfg{Async: 1, Cache: true})
+		cfgs = append(cfgs, Cfg{Index: 2, Ext: ".v1.obj"}, Cfg{Async: 1, Cache: true})
 	}
 	item := 0
 	for _, cfg := range cfgs {
